@@ -243,6 +243,7 @@ func c17(r *engine.Report, p *engine.Program) {
 	// R9 a delivery that waits for a reader never holds a registry/table lock: Close (which needs
 	// the write lock to deregister the socket) must always be able to get through
 	blockingSendsUnderLock(r, p, "R9-no-block-under-lock", scope)
+	bindOnceRule(r, p, "R6-bind-once")
 
 	// R5b forwarders of broker subscriptions drain until the broker closes the subscription: their only
 	// exit is the "channel closed" edge (an earlier exit leaves a delivery pending and wedges the broker)
